@@ -464,6 +464,9 @@ class _Base(object):
             return 7
         return object.__hash__(self)
 
+    def __bool__(self):
+        return not getattr(self.W, "falsy_mode", False)
+
     def __init__(self, W, F, k, enter_script, exit_script, swallow, shape):
         self.W = W
         self.F = F  # frame record whose code contains the construction site
